@@ -43,6 +43,7 @@ def explore(res, rng, n, exhaustive=None):
     cyc.micro_stream(res, cyc.NAMES, rng, max(30, n // 25), pred)
     cyc.extreme_scale_stream(res, cyc.NAMES, rng, max(12, n // 60))
     cyc.narrow_dtype_stream(res, cyc.NAMES, rng, max(10, n // 80))
+    cyc.config_cycles_stream(res, cyc.NAMES, rng, max(16, n // 60))
     cyc.caller_array_stream(res, cyc.NAMES, rng, max(10, n // 100))
     for name, h, s, out in runs:
         res.stat('counter_' + name)
